@@ -403,7 +403,7 @@ fn walk(pp: &mut ParsedPacket, sec: &str, incl_opt: bool, plan: &str) -> String 
 
 // ---- C16: barrier-scripted interleavings of failing table calls and error_description reads ------
 
-const ERR_KINDS: usize = 7;
+const ERR_KINDS: usize = 13;
 
 fn schedule(nthreads: usize, steps: &str) -> String {
     use std::ffi::CStr;
@@ -507,10 +507,41 @@ unsafe fn failing_call(kind: usize, c_err: &mut *const dnssector::c_abi::CErr, p
             let txt = b"second.example. 0 IN A 1.2.3.4\0";
             (table.add_to_question)(pp, c_err, txt.as_ptr() as *const _)
         }
-        _ => {
+        6 => {
             let bad = [0u8, 1, b'a', 0];
             let src = [1u8, b'q', 0];
             (table.rename_with_raw_names)(pp, c_err, bad.as_ptr(), bad.len(), src.as_ptr(), src.len(), false)
+        }
+        7 => {
+            let src = [1u8, b'q', 0];
+            (table.rename_with_raw_names)(pp, c_err, src.as_ptr(), 0, src.as_ptr(), src.len(), false)
+        }
+        k => {
+            // set_raw_name through the answer iterator of a packet that has an answer: the names the checker refuses, one description each
+            let bad: &[u8] = match k {
+                8 => &[1, b'a', 0xc0],
+                9 => &[0xc0, 0x0c],
+                10 => &[0x40, b'a', 0],
+                11 => &[5, b'a'],
+                _ => &[1, 1, 0],
+            };
+            let with_answer: Vec<u8> = vec![0, 7, 0x81, 0x80, 0, 1, 0, 1, 0, 0, 0, 0, 1, b'q', 0, 0, 1, 0, 1, 0xc0, 12, 0, 1, 0, 1, 0, 0, 0, 9, 0, 4, 1, 2, 3, 4];
+            let mut pp2 = DNSSector::new(with_answer).unwrap().parse().unwrap();
+            struct Ctx {
+                name: *const u8,
+                len: usize,
+                c_err: *mut *const dnssector::c_abi::CErr,
+                rc: i32,
+            }
+            unsafe extern "C" fn cb(ctx: *mut std::ffi::c_void, it: *const dnssector::c_abi::SectionIterator) -> bool {
+                let table = dnssector::c_abi::fn_table();
+                let c = &mut *(ctx as *mut Ctx);
+                c.rc = (table.set_raw_name)(&mut *(it as *mut dnssector::c_abi::SectionIterator), c.c_err, c.name, c.len);
+                false
+            }
+            let mut ctx = Ctx { name: bad.as_ptr(), len: bad.len(), c_err: c_err as *mut _, rc: 0 };
+            (table.iter_answer)(&mut pp2, cb, &mut ctx as *mut Ctx as *mut std::ffi::c_void);
+            ctx.rc
         }
     }
 }
